@@ -149,7 +149,9 @@ KnownOps == {"", ":", "?", "*", "+"}
 \* the text is  (lead ? "/" : "") + parts joined by "/" + (trail ? "/" : "");  an empty part yields "//"
 \* only if something (or a flagged slash) stands on both of its sides
 NP(tp) == Len(tp.parts)
-EffLead(tp) == tp.lead \/ tp.parts[1].k = "empty"
+\* the rendered text starts with a slash: an explicit one, or the separator after an empty first part (a lone empty part
+\* without trailing slash renders as the empty string, which has no leading slash)
+EffLead(tp) == tp.lead \/ (tp.parts[1].k = "empty" /\ (NP(tp) > 1 \/ tp.trail))
 DoubleSlash(tp) == \E k \in DOMAIN tp.parts :
                       tp.parts[k].k = "empty" /\ (k > 1 \/ tp.lead) /\ (k < NP(tp) \/ tp.trail)
 ValidPattern(tp) ==
